@@ -20,5 +20,6 @@ def Arith.so : Arith where
       some ((Fit.ScaleOffset.csvParseScaled (Fit.ScaleOffset.apply (Fit.ScaleOffset.toF64 t p) scale offset) bt scale offset).getD .invalid)
     | none => none
   degrees s := s
+  fscaled x bt scale offset := Fit.ScaleOffset.csvParseScaled x bt scale offset
 
 end Fit.Csv
